@@ -212,7 +212,7 @@ static void reply_rc(int rc) { ob_puts(&out, "{\"rc\":"); ob_int(&out, rc); ob_p
 
 static int define_var(int level, int idx, const char* id, const char* ty, const char* val) {
   int rc = -1; size_t n; uint8_t* sv = NULL;
-  if (ty[0] == 's') sv = unhex(val, &n);
+  if (ty[0] == 's' && strcmp(val, "NULL")) sv = unhex(val, &n);     /* "NULL": a NULL value pointer (compiler and rule-set level reject it with ERROR_INVALID_ARGUMENT) */
   yv_alloc_track = 1;
   switch (level) {
   case 0:
